@@ -30,6 +30,9 @@ def check_vec(v):
     if s is None:
         return None
     kind = s.kind
+    S = serif()
+    if any(isinstance(e, S.Vector) for e in v):
+        return None    # a non-table vector of vectors (what a ragged stack returns): outside the property
     for i, e in enumerate(v):
         if e is None:
             if not s.nullable:
@@ -97,6 +100,12 @@ class C03(Oracle):
             else:
                 vecs.append((e.obj, w.name_of(e)))
             for v, label in vecs:
+                try:
+                    if any(isinstance(x, S.Vector) for x in v):
+                        continue     # non-table vector of vectors: outside the property
+                except Exception as ex:
+                    ex = None
+                    continue
                 env.probe("c03_vectors_checked")
                 try:
                     bad = check_vec(v)
